@@ -12,6 +12,7 @@ import (
 	"fmt"
 	"os"
 	"reflect"
+	"strings"
 	"unicode"
 	"unicode/utf8"
 
@@ -174,13 +175,13 @@ func cmdTyped(args []string) int {
 						o.Value = lowerKeys(v)
 					}
 				}
+				allowed := c.Allowed[di]
 				isCanary := false
-				if *canary > 0 && calls%*canary == 0 && o.Kind == "ok" {
+				if *canary > 0 && calls%*canary == 0 && o.Kind == "ok" && !strings.Contains(mustJSON(allowed), "unspec") {
 					o = Obs{Kind: "ok", Value: "☃canary"}
 					isCanary = true
 					sum.CanariesIn++
 				}
-				allowed := c.Allowed[di]
 				m, _ := matchOutcome(o, allowed, false)
 				if !m {
 					if isCanary {
